@@ -73,7 +73,7 @@ def graph_history(draw, tier):
                        st.fixed_dictionaries({"mode": st.just("script"), "ints": st.lists(st.integers(0, 40), max_size=60),
                                               "tail": st.integers(0, 99)})))
     tuple_named = draw(st.integers(0, 5)) == 5
-    return {"n": n, "tuple_named": tuple_named,
+    return {"n": n, "tuple_named": tuple_named, "object_vertices": (not tuple_named) and draw(st.integers(0, 5)) == 5,
             "edges": [[(b, a) if f else (a, b)][0] for (a, b), f in zip(order, flip)], "labels": list(labels),
             "node_order": list(node_order) if node_order else None, "ops": ops, "rng": r}
 
@@ -94,7 +94,28 @@ def enumerated(tier, seed):
             for s in range(3):
                 out.append({"n": G.number_of_nodes(), "edges": [list(e) for e in G.edges()], "labels": list(range(G.number_of_nodes())),
                             "node_order": None, "ops": [["mpcc", lim]], "rng": {"mode": "seed", "seed": seed * 10 + s}})
+    # cliques of 10 and more vertices (two-digit sizes), with a tail
+    for k in (9, 10, 11):
+        es = [list(p) for p in combinations(range(k), 2)] + [[0, k], [k, k + 1], [1, k + 1]]
+        for lim in (0, 10):
+            out.append({"n": k + 2, "edges": es, "labels": list(range(k + 2)), "node_order": None, "ops": [["mpcc", lim]],
+                        "rng": {"mode": "seed", "seed": seed}})
     return out
+
+
+class Vtx:
+    """a vertex that hashes / compares by identity (networkx allows any hashable node); prints as its number so that
+    the member list embedded in a label can be parsed back"""
+    __slots__ = ("i",)
+
+    def __init__(self, i):
+        self.i = i
+
+    def __repr__(self):
+        return str(self.i)
+
+    def __lt__(self, o):
+        return self.i < o.i
 
 
 def verify(G, before_nodes, before_edges, limit, step):
@@ -115,6 +136,9 @@ def verify(G, before_nodes, before_edges, limit, step):
     for lab, es in by_label.items():
         m = LABEL.match(lab)
         size, members, cid = int(m.group(1)), ast.literal_eval(m.group(2)), int(m.group(3))
+        byrepr = getattr(G, "_vtx_by_number", None)
+        if byrepr:
+            members = [byrepr.get(x, x) for x in members]
         if size != len(members) or len(set(members)) != len(members):
             raise Violation("label-size", f"step {step}: label {lab!r}: stated size {size}, members {members}")
         if limit > 0 and size > limit:
@@ -162,6 +186,10 @@ def check(case):
     from gcmpy import MPCC
     lab = case["labels"]
     G = nx.Graph()
+    if case.get("object_vertices"):
+        objs = [Vtx(x) for x in lab]
+        G._vtx_by_number = {o.i: o for o in objs}
+        lab = objs
     if case.get("node_order"):
         for i in case["node_order"]:
             G.add_node(lab[i])
